@@ -19,11 +19,18 @@ def run(tier, seed, replay=None):
         d = rng.choice([2, 2, 3, 3, 4, 5])
         N = [rng.choice([1, 2, 3, 4, 5, 6, 8, 10]) for _ in range(d)]
         while int(np.prod(N)) > 4000: N[N.index(max(N))] = 2
-        z = solverkit.rand_tt_float(rng, N, solverkit.ranks(rng, d, rng.choice([1, 2])), dt)
-        z = z * (1.0 / max(1e-300, float(z.full().abs().max())))
-        y = (z * z + 1.0).round(1e-14)                      # entries in [1, 2]
+        big = i < (1 if tier == "quick" else 8)             # quotients whose TT rank exceeds 50: the largest shapes with a rank-4 z of amplitude 2
+        if big:
+            N = rng.choice([[9, 8, 8, 9], [8, 8, 8, 8], [10, 6, 6, 10]]) if i else [9, 8, 8, 9]; d = 4
+            z = solverkit.rand_tt_float(rng, N, [1, 4, 4, 4, 1], dt)
+            z = z * (2.0 / max(1e-300, float(z.full().abs().max())))
+        else:
+            z = solverkit.rand_tt_float(rng, N, solverkit.ranks(rng, d, rng.choice([1, 2])), dt)
+            z = z * (1.0 / max(1e-300, float(z.full().abs().max())))
+        y = (z * z + 1.0).round(1e-14)                      # entries in [1, 2] ([1, 5] for the high-rank quotients)
         x = solverkit.rand_tt_float(rng, N, solverkit.ranks(rng, d, rng.choice([1, 2, 3, 4])), dt)
         form = rng.choice(["x/y", "x/y", "scalar/y", "elementwise_divide", "elementwise_divide", "x/scalar"])
+        if big: form = "x/y" if i % 2 == 0 else "scalar/y"; dist["high-rank quotient"] = dist.get("high-rank quotient", 0) + 1
         sd = rng.randrange(1 << 30); torch.manual_seed(sd)
         desc = {"form": form, "N": N, "rank_x": [int(r) for r in x.R], "rank_y": [int(r) for r in y.R], "torch_seed": sd}
         dist[form] = dist.get(form, 0) + 1
